@@ -357,9 +357,14 @@ def run_harness(ov, hmeta, spec, workdir):
         if "trace" in r:
             f["inputs"] = _extract_inputs(r["trace"], pretty)
         res.failed.append(f)
-    if undecided:
+    real_fail = [f for f in res.failed if f["class"] != "unwind"]
+    if undecided and not real_fail:
         res.status = "error"
         res.detail = "%d checks left undecided by CBMC (status %s) %s" % (undecided, sorted(und_kinds), " | ".join(m for m in msgs[-3:])[:300])
+    elif undecided:
+        # definite FAILUREs stand even if CBMC stopped before deciding the remaining checks
+        res.status = "fail"
+        res.detail = "%d other checks left undecided by CBMC (%s)" % (undecided, sorted(und_kinds))
     elif not res.failed:
         res.status = "pass"
     elif unwind_fail and all(f["class"] == "unwind" for f in res.failed):
